@@ -236,7 +236,10 @@ static std::string c11_config(Rng &r, const World &w, int *cls) {
     if (r.chance(1, 2)) { s.has_errlog = true; s.errlog = r.chance(1, 2) ? "yes" : r.chance(1, 2) ? "no" : "garbage"; }
     if (r.chance(1, 2)) { s.has_dsmax = true; s.dsmax = r.chance(1, 5) ? "junk" : std::to_string(r.range(255, 400)); }
     if (r.chance(1, 2)) { s.has_logmax = true; s.logmax = r.chance(1, 5) ? "0" : std::to_string(r.range(255, 600)); }
-    return s.render(r, true);
+    std::string f = s.render(r, true);
+    // a damaged file: lines the parser rejects next to options it accepts
+    if (r.chance(1, 3)) { static const char *bad[] = {"half edited line\n", "[snoopy\n", "message_format\n", "====\n"}; std::string b = bad[r.below(4)]; size_t at = r.chance(1, 2) ? f.size() : f.find('\n') + 1; f.insert(at, b); if (cls) *cls = 11; }
+    return f;
 }
 static Plan gen_c11(uint64_t seed, const std::string &tier) {
     Rng r(seed * 1000003 + 111);
@@ -251,7 +254,7 @@ static Plan gen_c11(uint64_t seed, const std::string &tier) {
         if (how == 0 && i > 0) { o.cfg_mode = 1; cls += "D"; }                         // deleted
         else if (how == 1 && i > 0) { o.cfg_mode = 2; o.cfg_errno = r.chance(1, 2) ? 13 : 5; cls += "U"; } // unreadable
         else if (how == 2 && i > 0) { cls += "="; o.op = ""; }                           // unchanged
-        else { int c; o.cfg_mode = 0; o.cfg = c11_config(r, w, &c); cls += (char)('0' + c); }
+        else { int c; o.cfg_mode = 0; o.cfg = c11_config(r, w, &c); cls += c == 11 ? 'B' : (char)('0' + c); }
         if (!o.op.empty()) p.ops.push_back(o);
         ExecOp e; e.api = (int)r.below(2); e.path = "/bin/call" + std::to_string(i); size_t L = r.chance(1, 4) ? (size_t)r.range(250, 700) : 5; e.argv = {"a" + std::to_string(i), std::string(L, 'x')};
         e.success = false; e.err = 2; e.ret = -1;
@@ -293,5 +296,6 @@ static void describe_c11(const Plan &p, const RunResult &, J &line) {
     if (c.find('U') != std::string::npos) line.set("p_unreadable", true);
     if (c.find('2') != std::string::npos) line.set("p_corrupted", true);
     if (c.find('0') != std::string::npos) line.set("p_emptied", true);
+    if (c.find('B') != std::string::npos) line.set("p_damaged_with_valid_options", true);
 }
 static Reg reg_c11({"C11", gen_c11, oracle_c11, abort_sched, describe_c11});
